@@ -738,14 +738,30 @@ theorem climb_bounds {n relax : Nat} {et desc : Array Nat} (h : Heap n et) (fuel
       exact ⟨by omega, b⟩
     · exact ⟨Nat.le_refl _, hj⟩
 
+
+theorem climb_spec {n relax : Nat} {et desc : Array Nat} (fuel j : Nat) :
+    climb n relax et desc fuel j = j ∨ desc.getD (climb n relax et desc fuel j) 0 < relax := by
+  induction fuel generalizing j with
+  | zero => left; rfl
+  | succ f ih =>
+    unfold climb
+    simp only
+    split
+    · rename_i hc
+      rcases ih (et.getD j 0) with e | e
+      · right; rw [e]; exact hc.2
+      · right; exact e
+    · left; rfl
+
 /-- state of the supernode loop: ranges found so far lie below `j`, nothing is recorded from `j` on -/
-def RelaxInv (n j : Nat) (re : Array Int) : Prop :=
+def RelaxInv (n relax : Nat) (desc : Array Nat) (j : Nat) (re : Array Int) : Prop :=
   re.size = n ∧ (∀ s, j ≤ s → re.getD s (-1) = -1) ∧
   ∀ s < j, re.getD s (-1) = -1 ∨
-    ∃ e : Nat, re.getD s (-1) = Int.ofNat e ∧ s ≤ e ∧ e < j ∧ e < n ∧ ∀ t, s < t → t ≤ e → re.getD t (-1) = -1
+    ∃ e : Nat, re.getD s (-1) = Int.ofNat e ∧ s ≤ e ∧ e < j ∧ e < n ∧ (s < e → desc.getD e 0 < relax) ∧
+      ∀ t, s < t → t ≤ e → re.getD t (-1) = -1
 
 theorem relaxLoop_inv {n relax : Nat} {et desc : Array Nat} (h : Heap n et) (fuel j : Nat) (re : Array Int)
-    (hinv : RelaxInv n j re) : ∃ j', RelaxInv n j' (relaxLoop n relax et desc fuel j re) := by
+    (hinv : RelaxInv n relax desc j re) : ∃ j', RelaxInv n relax desc j' (relaxLoop n relax et desc fuel j re) := by
   induction fuel generalizing j re with
   | zero => exact ⟨j, hinv⟩
   | succ f ih =>
@@ -778,7 +794,11 @@ theorem relaxLoop_inv {n relax : Nat} {et desc : Array Nat} (h : Heap n et) (fue
         by_cases e : s = j
         · subst e
           right
-          refine ⟨climb n relax et desc n s, by simp [hs, hj], hc1, hnxt, hc2, ?_⟩
+          refine ⟨climb n relax et desc n s, by simp [hs, hj], hc1, hnxt, hc2, ?_, ?_⟩
+          · intro hlt
+            rcases climb_spec (n := n) (relax := relax) (et := et) (desc := desc) n s with e | e
+            · omega
+            · exact e
           intro t ht1 ht2
           rw [getD_setIfInBounds']
           have : ¬ (t = s ∧ s < re.size) := by omega
@@ -787,10 +807,10 @@ theorem relaxLoop_inv {n relax : Nat} {et desc : Array Nat} (h : Heap n et) (fue
         · have hne : ¬ (s = j ∧ j < re.size) := fun c => e c.1
           rw [if_neg hne]
           by_cases hsj : s < j
-          · rcases hlo s hsj with h1 | ⟨e', he1, he2, he3, he4, he5⟩
+          · rcases hlo s hsj with h1 | ⟨e', he1, he2, he3, he4, he6, he5⟩
             · exact Or.inl h1
             · right
-              refine ⟨e', he1, he2, by omega, he4, ?_⟩
+              refine ⟨e', he1, he2, by omega, he4, he6, ?_⟩
               intro t ht1 ht2
               rw [getD_setIfInBounds']
               have : ¬ (t = j ∧ j < re.size) := by omega
